@@ -31,12 +31,12 @@ EXTR = "extraction to OCaml with ExtrOcamlBasic only (no Extract Constant of our
 UBDEF = ("the machine's catalogue of UB kinds is the definition of memory unsafety used; Rust's aliasing model, provenance and "
          "optimiser-dependent manifestations of UB are not modelled")
 
-prop("C01", title="operation sequences behave like std Vec", equiv=["EquivElem.push_equiv", "EquivPop.pop_equiv", "EquivInsert.insert_equiv", "EquivRemove.remove_equiv", "EquivSwapRemove.swap_remove_equiv", "EquivElem.truncate_equiv", "EquivElem.clear_equiv", "EquivElem.set_len_equiv"], trusted=[HAND, EXTR, "std::vec::Vec as the oracle of the list-level spec (three-way run)"])
-prop("C02", title="exactly-once ownership", equiv=["EquivElem.push_equiv", "EquivPop.pop_equiv", "EquivInsert.insert_equiv", "EquivRemove.remove_equiv", "EquivSwapRemove.swap_remove_equiv", "EquivElem.truncate_equiv", "EquivElem.clear_equiv", "EquivElem.set_len_equiv", "EquivDrop.drop_equiv"], trusted=[HAND, EXTR, UBDEF])
+prop("C01", title="operation sequences behave like std Vec", equiv=["EquivElem.push_equiv", "EquivPop.pop_equiv", "EquivInsert.insert_equiv", "EquivRemove.remove_equiv", "EquivSwapRemove.swap_remove_equiv", "EquivElem.truncate_equiv", "EquivElem.clear_equiv", "EquivElem.set_len_equiv", "EquivAppend.append_equiv", "EquivAppend.is_empty_equiv"], trusted=[HAND, EXTR, "std::vec::Vec as the oracle of the list-level spec (three-way run)"])
+prop("C02", title="exactly-once ownership", equiv=["EquivElem.push_equiv", "EquivPop.pop_equiv", "EquivInsert.insert_equiv", "EquivRemove.remove_equiv", "EquivSwapRemove.swap_remove_equiv", "EquivElem.truncate_equiv", "EquivElem.clear_equiv", "EquivElem.set_len_equiv", "EquivDrop.drop_equiv", "EquivAppend.append_equiv"], trusted=[HAND, EXTR, UBDEF])
 prop("C03", title="allocator contract", equiv=["next_aligned_equiv", "make_layout_equiv", "max_align_equiv", "EquivGrow.grow_equiv", "EquivDrop.drop_equiv"], trusted=[HAND, EXTR, UBDEF, "the GlobalAlloc contract as written in Machine.do_realloc/do_dealloc"])
 prop("C04", title="panic safety", equiv=["EquivElem.truncate_equiv", "EquivElem.clear_equiv", "EquivElem.push_equiv", "EquivInsert.insert_equiv"], trusted=[HAND, EXTR, UBDEF])
 prop("C05", title="forget safety", trusted=[HAND, EXTR, UBDEF])
-prop("C06", title="never-allocated vector", equiv=["EquivCap.len_equiv", "EquivCap.capacity_equiv", "EquivCap.alignment_equiv", "EquivElem.data_equiv", "EquivElem.as_ptr_equiv", "EquivElem.as_mut_ptr_equiv"], trusted=[HAND, EXTR, UBDEF], profiles="dr")
+prop("C06", title="never-allocated vector", equiv=["EquivCap.len_equiv", "EquivCap.capacity_equiv", "EquivCap.alignment_equiv", "EquivElem.data_equiv", "EquivElem.as_ptr_equiv", "EquivElem.as_mut_ptr_equiv", "EquivAppend.append_equiv", "EquivAppend.is_empty_equiv"], trusted=[HAND, EXTR, UBDEF], profiles="dr")
 prop("C07", title="capacity honest / reservation contract / stability", equiv=["next_aligned_equiv", "make_layout_equiv", "EquivCap.len_equiv", "EquivCap.capacity_equiv", "EquivCap.reserve_exact_equiv", "EquivCap.shrink_to_fit_equiv", "EquivCap.shrink_to_equiv", "EquivGrow.grow_equiv", "EquivElem.push_equiv", "EquivInsert.insert_equiv"], trusted=[HAND, EXTR])
 prop("C08", title="alignment", equiv=["next_aligned_equiv", "make_layout_equiv", "max_align_equiv", "EquivCap.alignment_equiv", "EquivGrow.grow_equiv"], trusted=[HAND, EXTR])
 prop("C09", title="impossible sizes", equiv=["next_aligned_equiv", "make_layout_equiv", "max_align_equiv", "EquivCap.reserve_exact_equiv", "EquivGrow.grow_equiv"], quick_n=240, thorough_n=4000, child_timeout=15,
